@@ -66,8 +66,8 @@ pub open spec fn l1_inv(sc: Scratch, cmap: Seq<int>, xy: int, img0: Seq<Geometry
     &&& sc.columns@.len() <= xy && cmap.len() == xy
     &&& forall|c: int| 0 <= c < sc.columns@.len() ==> 0 <= #[trigger] sc.columns@[c] < xy && cmap[sc.columns@[c] as int] == c
     &&& forall|c1: int, c2: int| 0 <= c1 < c2 < sc.columns@.len() ==> sc.columns@[c1] < sc.columns@[c2]
-    &&& forall|q: int| 0 <= q < xy ==> (#[trigger] cmap[q] == -1 && img0[qoff(t, cx, cy, n, q)].depth >= cz + n)
-            || (0 <= cmap[q] < sc.columns@.len() && sc.columns@[cmap[q]] == q && img0[qoff(t, cx, cy, n, q)].depth < cz + n)
+    &&& forall|q: int| 0 <= q < xy ==> (#[trigger] cmap[q] == -1 && img0[qoff(t, cx, cy, n, q)].depth >= cz + n + 1)
+            || (0 <= cmap[q] < sc.columns@.len() && sc.columns@[cmap[q]] == q && img0[qoff(t, cx, cy, n, q)].depth == 0)
     &&& forall|c: int, k: int| 0 <= c < sc.columns@.len() && 0 <= k < n ==> {
             &&& #[trigger] sc.x@[c * n + k] == f_of(qx(cx, n, sc.columns@[c] as int) as usize)
             &&& sc.y@[c * n + k] == f_of(qy(cy, n, sc.columns@[c] as int) as usize)
@@ -78,7 +78,7 @@ pub open spec fn cols_ok(cols: Seq<usize>, cmap: Seq<int>, img0: Seq<GeometryPix
     &&& cmap.len() == n * n && cols.len() <= n * n
     &&& forall|c: int| 0 <= c < cols.len() ==> 0 <= #[trigger] cols[c] < n * n && cmap[cols[c] as int] == c && img0[qoff(t, cx, cy, n, cols[c] as int)].depth == 0
     &&& forall|c1: int, c2: int| 0 <= c1 < c2 < cols.len() ==> cols[c1] < cols[c2]
-    &&& forall|q: int| 0 <= q < n * n ==> (#[trigger] cmap[q] == -1 && img0[qoff(t, cx, cy, n, q)].depth >= cz + n) || (0 <= cmap[q] < cols.len() && cols[cmap[q]] == q)
+    &&& forall|q: int| 0 <= q < n * n ==> (#[trigger] cmap[q] == -1 && img0[qoff(t, cx, cy, n, q)].depth >= cz + n + 1) || (0 <= cmap[q] < cols.len() && cols[cmap[q]] == q)
 }
 /// loop 2: the gradient samples collected so far (pixel number gq, voxel gk), per looked-at column a hit or nothing, everything else untouched
 pub open spec fn l2_inv(f: Fn_, sc: Scratch, img: Seq<GeometryPixel>, img0: Seq<GeometryPixel>, cols1: Seq<usize>, col: int, grad: int, hit: Seq<int>, gq: Seq<int>, gk: Seq<int>,
